@@ -70,6 +70,15 @@ func backSlice(v ssa.Value, visit func(ssa.Value) bool) {
 						if y.Addr == x {
 							walk(y.Val, d+1)
 						}
+					case *ssa.FieldAddr, *ssa.IndexAddr:
+						// values stored into a field or element of the local (field-insensitive)
+						if rr := y.(ssa.Value).Referrers(); rr != nil {
+							for _, z := range *rr {
+								if st, ok := z.(*ssa.Store); ok && st.Addr == y.(ssa.Value) {
+									walk(st.Val, d+1)
+								}
+							}
+						}
 					case *ssa.Slice:
 						if rr := y.Referrers(); rr != nil {
 							for _, z := range *rr {
@@ -166,6 +175,11 @@ func backSlice(v ssa.Value, visit func(ssa.Value) bool) {
 					}
 				})
 			}
+			if sc := x.Call.StaticCallee(); sc != nil && isNewHelper(sc) {
+				// the helper's results were followed into its body; its parameters lead back to the arguments that
+				// matter, so the argument list as a whole (loggers, contexts) is not part of the slice
+				return
+			}
 			for _, a := range x.Call.Args {
 				walk(a, d+1)
 			}
@@ -201,6 +215,9 @@ func sliceCalls(v ssa.Value) map[string][]*ssa.Call {
 	out := map[string][]*ssa.Call{}
 	backSlice(v, func(x ssa.Value) bool {
 		if c, ok := x.(*ssa.Call); ok {
+			if sc := c.Call.StaticCallee(); sc != nil && isNewHelper(sc) {
+				return true // transparent: the calls inside it are collected instead
+			}
 			n := shortCallee(c.Common())
 			out[n] = append(out[n], c)
 		}
